@@ -415,8 +415,54 @@ func (p *progFacts) sentErrorReachesCaller(ch ssa.Value, depth int) (bool, strin
 // branchReportsError: the blocks dominated by b contain a return of a non-nil error or a send on an error channel.
 func branchReportsError(b *ssa.BasicBlock) bool {
 	for _, d := range b.Parent().Blocks {
-		if b.Dominates(d) && (blockReturnsError(d) || blockSendsError(d)) {
-			return true
+		if !b.Dominates(d) {
+			continue
+		}
+		for _, ins := range d.Instrs {
+			switch x := ins.(type) {
+			case *ssa.Return:
+				for _, res := range x.Results {
+					if isErrorType(res.Type()) && surelyNonNilError(res) {
+						return true
+					}
+				}
+			case *ssa.Send:
+				if ch, ok := x.Chan.Type().Underlying().(*types.Chan); ok && isErrorType(ch.Elem()) && surelyNonNilError(x.X) {
+					return true
+				}
+			}
+		}
+	}
+	return false
+}
+
+// surelyNonNilError: an error built on the spot (errors.New / fmt.Errorf) or a package-level sentinel - not some other variable, which may well be nil on this path
+// (`if werr != nil { cErr <- err }`).
+func surelyNonNilError(v ssa.Value) bool {
+	for d := 0; d < 6 && v != nil; d++ {
+		switch x := v.(type) {
+		case *ssa.MakeInterface:
+			v = x.X
+		case *ssa.ChangeInterface:
+			v = x.X
+		case *ssa.Call:
+			if cal := x.Common().StaticCallee(); cal != nil {
+				switch cal.String() {
+				case "errors.New", "fmt.Errorf", "errors.Join":
+					return true
+				}
+			}
+			return false // the error result of some other call may be nil (e.g. an earlier, successful write)
+		case *ssa.Alloc:
+			return true // &someErrorStruct{...}
+		case *ssa.UnOp:
+			if x.Op == token.MUL {
+				_, isGlobal := x.X.(*ssa.Global)
+				return isGlobal
+			}
+			return false
+		default:
+			return false
 		}
 	}
 	return false
